@@ -101,6 +101,16 @@ def write_replay(pid, seed, n, payload):
     return path
 
 
+def _assumptions(pid):
+    try:
+        import manifest_data
+        c = manifest_data.CLAIMS.get(pid, {})
+        return [c.get("note", "")] + ["the implementation runs with the fastcore-1.7 compatibility shim (DESIGN.md 1.1)",
+                                      "inputs are 7-bit text; structurally typed descriptions"]
+    except Exception:  # noqa: BLE001
+        return []
+
+
 def main():
     ap = argparse.ArgumentParser()
     ap.add_argument("pid")
@@ -189,7 +199,7 @@ def main():
         cov["coqchk"] = propdefs.coqchk(pid)
     ev = {
         "property_id": pid, "tier": a.tier, "seed": seed, "level": "proof", "coverage": cov,
-        "assumptions": prop.get("assumptions", []), "wall_s": round(wall, 2), "violations": nv,
+        "assumptions": prop.get("assumptions") or _assumptions(pid), "wall_s": round(wall, 2), "violations": nv,
     }
     if not a.replay:
         os.makedirs(EVID, exist_ok=True)
